@@ -63,10 +63,26 @@ def gen_case(case, formats=FORMATS, prop=ID):
         if cfg.get("reuse_tolerance", 0.1) in (-1, 0.0):
             cfg["reuse_tolerance"] = 0.1
         srcs.extend(svgs)
-    elif mode < 0.27:
+    elif mode < 0.245:
         meta["mode"] = "twin-gradients"
         for g in range(r.randint(1, 2)):
             srcs.append(svggen.twin_gradient_source(r, g)[0])
+    elif mode < 0.27:
+        # a thin bar far from the baseline under a bounding-box gradient, ordinary metrics: the gradient frame's
+        # pre-image under the residual matrix is where a 16-bit field is most easily exceeded (and only there)
+        meta["mode"] = "thin-bar-gradient"
+        cfg["upem"], cfg["ascender"], cfg["descender"] = r.choice([(1024, 950, -250), (1000, 800, -200), (2048, 1900, -500)])
+        cfg["width"] = cfg["ascender"] - cfg["descender"]
+        cfg.pop("transform", None)
+        vb = r.choice([100, 128, 1000])
+        w = vb * r.uniform(0.7, 0.95)
+        h = w / r.uniform(25, 160)
+        x0, y0 = (vb - w) * r.uniform(0, 1), vb * r.choice([r.uniform(0.02, 0.25), r.uniform(0.02, 0.9)])
+        if r.random() < 0.3:
+            x0, y0, w, h = y0, x0, h, w
+        st = svggen.stops_xml(r, pal)
+        gx = f'<radialGradient id="b" cx="{r.uniform(0.3, 0.7):.2f}" cy="{r.uniform(0.3, 0.7):.2f}" r="{r.uniform(0.3, 0.6):.2f}">{st}</radialGradient>' if r.random() < 0.7 else f'<linearGradient id="b" x1="0" y1="0" x2="1" y2="1">{st}</linearGradient>'
+        srcs.append(f'<svg xmlns="http://www.w3.org/2000/svg" viewBox="0 0 {vb} {vb}"><defs>{gx}</defs><rect x="{x0:.2f}" y="{y0:.2f}" width="{w:.2f}" height="{h:.2f}" fill="url(#b)"/><rect x="{vb * 0.4:.1f}" y="{vb * 0.6:.1f}" width="{vb * 0.2:.1f}" height="{vb * 0.2:.1f}" fill="{svggen.rnd_color(r, pal)}"/></svg>')
     elif mode < 0.45:
         meta["mode"] = "random"
         for g in range(r.randint(1, 4)):
